@@ -416,13 +416,18 @@ pub fn run_c16(ctx: &mut Ctx) {
             }
         }
     }
-    if shard == 0 || level == 0 {
+    {
         // number-like texts and registry numbers under keys that usually hold numbers: the text written is the text read
+        let mut di = 0u64;
         for (ki, key) in ["ct", "sz", "lt", "rt", "obs", "title", "k"].iter().enumerate() {
             if level == 0 && ki % 3 != 0 {
                 continue;
             }
             for (vi, text) in NUMBER_LIKE.iter().map(|t| t.to_string()).chain(NUMBERS.iter().map(|n| n.to_string())).enumerate() {
+                di += 1;
+                if di % nshards != shard {
+                    continue;
+                }
                 let doc = vec![
                     Link { target: "/n".into(), attrs: vec![(key.to_string(), AttrKind::Plain(text.clone())), ("end".into(), AttrKind::U16(1))] },
                     Link { target: "/m".into(), attrs: vec![("a".into(), AttrKind::Plain("b".into())), (key.to_string(), AttrKind::Quoted(text.clone()))] },
@@ -433,6 +438,10 @@ pub fn run_c16(ctx: &mut Ctx) {
                 rep.count("number_like_documents");
             }
             for n in NUMBERS {
+                di += 1;
+                if di % nshards != shard {
+                    continue;
+                }
                 let doc = vec![
                     Link { target: "/n".into(), attrs: vec![(key.to_string(), AttrKind::U32(*n)), ("end".into(), AttrKind::Plain("x".into()))] },
                     Link { target: "/m".into(), attrs: vec![("a".into(), AttrKind::Plain("b".into())), (key.to_string(), AttrKind::U16(*n as u16))] },
